@@ -9,6 +9,9 @@ C19 line protocol.  One line = one case.
                                -> text (code points)
   jl <b|t> <0|1> <hex>         JSONLIterator forward (binary / text-mode file) and reverse,
                                ignore_errors 0/1 -> `F<objs>[!Err] R<objs>[!Err]`
+  js <0|1> <target> <hex>      JSONLIterator(text-mode file, ignore_errors, rel_seek) forward and reverse, with
+                               target = int(size * rel_seek), or `zero` for rel_seek=0.0
+                               -> `F<objs>[!Err] R<objs>[!Err]`, or `hang`
   tbl                          the generated tables
 Text travels as decimal code points separated by `.` (`-` = empty); bytes as hex (`-` = empty).
 A list of lines is shown as its lines separated by `,`; the empty list is `[]`.
@@ -140,6 +143,23 @@ def handle (line : String) : String :=
       let rev := jsonlReverse parseMini ignore 4096 c
       "F" ++ showRun fwd ++ " R" ++ showRun rev
     | none => "bad-op"
+  | ["js", ign, "zero", c] =>
+    match hex? c with
+    | some c =>
+      if ign ≠ "0" ∧ ign ≠ "1" then "bad-op" else
+      let ignore := ign == "1"
+      "F" ++ showRun (jsonlRelSeekZero parseMini ignore false 4096 c) ++ " R" ++
+        showRun (jsonlRelSeekZero parseMini ignore true 4096 c)
+    | none => "bad-op"
+  | ["js", ign, target, c] =>
+    match hex? c, target.toNat? with
+    | some c, some target =>
+      if ign ≠ "0" ∧ ign ≠ "1" then "bad-op" else
+      let ignore := ign == "1"
+      match jsonlRelSeek parseMini ignore false 4096 c target, jsonlRelSeek parseMini ignore true 4096 c target with
+      | some fwd, some rev => "F" ++ showRun fwd ++ " R" ++ showRun rev
+      | _, _ => "hang"
+    | _, _ => "bad-op"
   | ["tbl"] =>
     "E" ++ showLines showCps Generated.lineEndings ++ " L" ++ showCps Generated.lstripSet
       ++ " R" ++ showCps Generated.rstripSet ++ " S" ++ showCps Generated.strBreakSet
